@@ -10,7 +10,7 @@ NEED = ("h4x",)
 RULE = ("histories (<=40 ops) over up to 5 vgroups and 3 vdatas: Vattach(-1,w), Vsetname/Vsetclass (lengths 0..300), "
         "Vaddtagref (arbitrary tag/refs, duplicates), bulk additions crossing 64/128 members, Vinsert of vgroup and "
         "vdata handles, Vdeletetagref, Vdetach, re-attach w/r, Vdelete, VSdelete, Vend/Hclose/reopen; observers "
-        "Vntagrefs/Vgettagrefs/Vgettagref/Vinqtagref/Vnrefs/Vinquire/Visvg/Visvs/Vgetname/Vgetclass/Vgetnamelen/Vlone/VSlone/Vgetid and "
+        "Vntagrefs/Vgettagrefs/Vgettagref/Vinqtagref/Vnrefs/Vinquire/Vgetnext/Visvg/Visvs/Vgetname/Vgetclass/Vgetnamelen/Vlone/VSlone/Vgetid and "
         "VSgetid iteration/Vfind/VSfind/Vfindclass/Vgetvgroups/VSgetvdatas after every mutator and after a final "
         "reopen, against a multigraph model. Non-trivial = delete in the middle, duplicate member, >=65 members, "
         "or an edit after reopen.")
@@ -140,6 +140,7 @@ def emit(case, path):
         S("inq", p.call("i", "Vinqtagref", V("g%d" % g), UTAGS[0], 3), g, UTAGS[0], 3)
         S("tagref0", p.call("i", "Vgettagref", V("g%d" % g), 0, Out(4), Out(4)), g, 0)
         S("inquire", p.call("i", "Vinquire", V("g%d" % g), Out(4), OutS(400)), g)
+        S("getnext", p.call("i", "Vgetnext", V("g%d" % g), -1), g)
         for h in range(NG):
             if ex[h]:
                 S("isvg", p.call("i", "Visvg", V("g%d" % g), V("gr%d" % h)), g, h)
@@ -509,6 +510,13 @@ def check(case, rr, prog, steps, labels):
             if r.ret != 0 or n != len(gs[g].members) or r.bufs[1] != gs[g].name.encode():
                 raise Fail("Vinquire differs from model", expected=[len(gs[g].members), repr(gs[g].name)[:60]],
                            observed=[n, repr(r.bufs[1])[:60]], ret=r.ret)
+        elif role == "getnext":
+            ms = members(a[0])
+            if ms and ms[0][0] in (DFTAG_VG, DFTAG_VH):
+                if r.ret != ms[0][1]:
+                    raise Fail("Vgetnext(-1) does not return the first member (a vgroup/vdata)", expected=ms[0][1], observed=r.ret)
+            elif r.ret != -1 and not any(m[0] in (DFTAG_VG, DFTAG_VH) and m[1] == r.ret for m in ms):
+                raise Fail("Vgetnext(-1) returns a ref that is not a vgroup/vdata member", observed=r.ret, members=[list(m) for m in ms][:20])
         elif role in ("isvg", "isvs"):
             g, h = a
             ref = gs[h].ref if role == "isvg" else vs_ref[h]
